@@ -61,7 +61,7 @@ def _anchor_owners():
 
 def common(ctx):
     """Generic rules applied, in both tiers, to every function the property's own check placed an obligation on."""
-    from .rules import r_count_after_expansion, r_default_dim_table, r_scalar_dim_bipartite, r_chunk_tail, r_oneshot_iterator, r_fresh_result, r_values_not_rounded, r_dense_into_kron, r_no_npmatrix, r_hermitian_solver_operand, r_roots_rounded, r_scalar_dim_expand, r_subsystem_count
+    from .rules import r_count_after_expansion, r_default_dim_table, r_scalar_dim_bipartite, r_chunk_tail, r_oneshot_iterator, r_fresh_result, r_values_not_rounded, r_dense_into_kron, r_no_npmatrix, r_hermitian_solver_operand, r_roots_rounded, r_scalar_dim_expand, r_subsystem_count, r_guard_not_preempted, r_stale_length, r_option_before_return, r_family_index_ranges, r_default_dim_root, r_swap_dims_current, r_unpack_alignment, r_all_equality, r_squeeze_axis, r_overwrite_operand, r_forward_same_named, r_einsum_kron, r_signed_difference
 
     ctx.rule("R-SHAPE", "the subsystem count of a two-row dimension table is its number of columns; inferred dimensions (roots of sizes) are rounded")
     ctx.rule("R-EFFECT", "array-returning functions are not memoised: every call returns a fresh object")
@@ -86,6 +86,12 @@ def common(ctx):
                 r_fresh_result(ctx, f)
                 r_oneshot_iterator(ctx, f)
                 r_chunk_tail(ctx, f)
+                r_option_before_return(ctx, f)
+                r_guard_not_preempted(ctx, f)
+                r_stale_length(ctx, f)
+                r_unpack_alignment(ctx, f)
+                r_squeeze_axis(ctx, f)
+                r_overwrite_operand(ctx, f)
             if in_anchor and f.parent is None and ctx.prop == "C06" and "/channels/" in f.file:
                 r_no_npmatrix(ctx, f)
             if in_anchor and f.parent is None and ctx.prop == "C17":
@@ -106,6 +112,19 @@ def common(ctx):
             r_hermitian_solver_operand(ctx, f)
             r_chunk_tail(ctx, f)
             r_oneshot_iterator(ctx, f)
+            r_option_before_return(ctx, f)
+            r_guard_not_preempted(ctx, f)
+            r_stale_length(ctx, f)
+            r_family_index_ranges(ctx, f)
+            r_default_dim_root(ctx, f)
+            r_swap_dims_current(ctx, f)
+            r_unpack_alignment(ctx, f)
+            r_all_equality(ctx, f)
+            r_squeeze_axis(ctx, f)
+            r_overwrite_operand(ctx, f)
+            r_forward_same_named(ctx, f)
+            r_einsum_kron(ctx, f)
+            r_signed_difference(ctx, f)
             if ctx.prop in ("C01", "C02", "C03"):  # properties that quantify over n-partite operators with separate row / column dimensions
                 r_subsystem_count(ctx, f)
 
@@ -133,6 +152,17 @@ def common(ctx):
             r_roots_rounded(ctx, g, chain=ch)
             r_fresh_result(ctx, g, chain=ch)
             r_hermitian_solver_operand(ctx, g, chain=ch)
+            r_default_dim_root(ctx, g, chain=ch)
+            r_stale_length(ctx, g, chain=ch)
+            r_guard_not_preempted(ctx, g, chain=ch)
+            r_swap_dims_current(ctx, g, chain=ch)
+            r_unpack_alignment(ctx, g, chain=ch)
+            r_all_equality(ctx, g, chain=ch)
+            r_squeeze_axis(ctx, g, chain=ch)
+            r_overwrite_operand(ctx, g, chain=ch)
+            r_forward_same_named(ctx, g, chain=ch)
+            r_einsum_kron(ctx, g, chain=ch)
+            r_signed_difference(ctx, g, chain=ch)
         # borrowed obligations: a helper in the closure that is anchored by ANOTHER property brings that property's own obligations on
         # it along (C15 relies on partial_transpose: whatever C03 checks on partial_transpose is checked for C15 too).  Only violated or
         # unknown-required ones matter for the verdict; all are marked as closure obligations.
